@@ -128,8 +128,8 @@ def check(ctx):
     ctx.ob("C05.R3.weights", f"{gp.qualname}|weights = baseline of the reporting units", w == col(RU, "last_election_results_"), gp.where(),
            "weights = reporting_units[last_election_results_e]" if w == col(RU, "last_election_results_") else f"weights = {ir.show(w, maxdepth=3)}")
     ctx.ob("C05.R3.normalize", f"{gp.qualname}|first attempt normalises weights", norm == ("const", True), gp.where(), f"normalize_weights = {ir.show(norm)}")
-    NT = ("sub", ("attr", RU, "shape"), ("const", 0))
-    NTe = ("sub", ("attr", NU, "shape"), ("const", 0))
+    NT = ir.nrows(RU)
+    NTe = ir.nrows(NU)
     okX = (X[0] == "call" and X[1][0] == "attr" and X[1][2] == "filter_to_active_features" and X[2][0][0] == "sub"
            and X[2][0][2] == ("slice", ("const", None), NT, ("const", None)))
     XALL = X[2][0][1] if okX else None
